@@ -23,6 +23,22 @@ let parse_op (t : string) : op =
   | ["pg"] -> PoolPurge
   | _ -> failwith ("bad op " ^ t)
 
+let parse_mread (t : string) : mread =
+  let n = nat (ios (String.sub t 1 (String.length t - 1))) in
+  match t.[0] with 'r' -> MRead n | 's' -> MStr n | _ -> MIn n
+
+let parse_xop (t : string) : xop =
+  match String.split_on_char ':' t with
+  | ["xs"; j] -> SendS (nat (ios j))
+  | ["xq"; i] -> SendQ (nat (ios i))
+  | ["xw"; k] -> PWrite (Some (nat (ios k)))
+  | ["xe"] -> PWrite None
+  | ["xl"] -> Limit
+  | ["qi"; i; w] -> QIn (nat (ios i), nat (ios w))
+  | ["mb"; h] -> MBuf (bytes_of_hex h, [])
+  | ["mb"; h; sc] -> MBuf (bytes_of_hex h, List.map parse_mread (String.split_on_char ',' sc))
+  | _ -> UOp (parse_op t)
+
 exception Hazard of string
 let ok (r : 'a res) : 'a =
   match r with
@@ -39,6 +55,22 @@ let out_s (o : out) : string =
   | OBool b -> bool01 b
   | OVec l -> String.concat "." (List.map hex_of_bytes l)
 
+let xout_s (t : string) (y : xout) : string =
+  match y with
+  | XUser o -> out_s o
+  | XBool b -> if b then "T" else "F"
+  | XSent None -> "ERR"
+  | XSent (Some l) -> hex_of_bytes l
+  | XIn (ok, v) -> if ok then "v" ^ string_of_n v else "short"
+  | XMB l ->
+    let calls = match String.split_on_char ':' t with
+      | [_; _; sc] -> String.split_on_char ',' sc | _ -> [] in
+    String.concat "." (List.map2 (fun c o ->
+      if c.[0] = 'i' then
+        (if List.length o = ios (String.sub c 1 (String.length c - 1))
+         then "v" ^ string_of_n (be_value o) else "short")
+      else hex_of_bytes o) calls l)
+
 let obs (st : state) (o : op) : out = snd (ok (step st o))
 
 (* property-level: size, empty, concatenated iovec;  internal: segments and (first,last) *)
@@ -53,6 +85,43 @@ let buf_obs (st : state) (name : string) (sz : op) (em : op) (iv : op) (bl : buf
 
 let handle (p : string) : string =
   match split p with
+  | [label; bsa; bsb; h; n] when label.[0] = 'P' ->
+    (match cross_run (nat (ios bsa)) (nat (ios bsb)) (bytes_of_hex h) (nat (ios n)) with
+     | Ok c ->
+       Printf.sprintf "class=%s;read=%s;A=%d,%d;B=%d,%d,%d;Bpurged=%s%s" label (hex_of_bytes c.c_read)
+         (int_of_nat c.c_allocA) (int_of_nat c.c_freeA) (int_of_nat c.c_allocB) (int_of_nat c.c_freeB)
+         (int_of_nat c.c_heldB) (string_of_n c.c_allocB_purged)
+         (if cross_acct_ok c then "" else ";known=C15-crosspool")
+     | _ -> "class=" ^ label ^ ";HAZARD")
+  | label :: bs :: nq :: ns :: max :: ops when label.[0] = 'X' ->
+    let x = ref (xinit (nat (ios bs)) (nat (ios nq)) (nat (ios ns))) in
+    let b = Buffer.create 1024 in
+    Buffer.add_string b ("class=" ^ label);
+    (try
+      List.iteri (fun k t ->
+        (try
+          let x', y = ok (xstep (n_of_string max) !x (parse_xop t)) in
+          x := x';
+          let st = ref !x.x_st in
+          let specs = ref [] and inners = ref [] in
+          List.iteri (fun i bl ->
+            let s, n = buf_obs !st (Printf.sprintf "q%d" i) (QSize (nat i)) (QEmpty (nat i))
+                (QIOVec (nat i)) bl in
+            specs := s :: !specs; inners := n :: !inners) !st.s_q;
+          List.iteri (fun j bl ->
+            let s, n = buf_obs !st (Printf.sprintf "s%d" j) (SSize (nat j)) (SEmpty (nat j))
+                (SIOVec (nat j)) bl in
+            specs := s :: !specs; inners := n :: !inners) !st.s_s;
+          Buffer.add_string b (Printf.sprintf ";o%d=%s/%s/acct%s,held-nonempty%s/assoc%s,reg%s" k
+            (xout_s t y) (String.concat "/" (List.rev !specs)) (bool01 (acct_ok !st))
+            (bool01 (noempty_ok !st)) (bool01 !x.x_assoc) (bool01 !x.x_reg));
+          Buffer.add_string b (Printf.sprintf ";i%d=%s/free%d,alloc%d" k
+            (String.concat "/" (List.rev !inners)) (int_of_nat (free_blocks !st))
+            (int_of_nat (blocks_allocated !st)))
+        with Hazard h ->
+          Buffer.add_string b (Printf.sprintf ";o%d=HAZARD:%s" k h); raise Exit)) ops
+    with Exit -> ());
+    Buffer.contents b
   | label :: bs :: nq :: ns :: ops ->
     let nq = ios nq and ns = ios ns in
     let st = ref (init (nat (ios bs)) (nat nq) (nat ns)) in
